@@ -257,9 +257,9 @@ pub struct InputHandleS { _p: u8 }
 //@@ param input_handle : InputHandleS
 //@@ param session_stop_reason : &Cell<SessionStopReason>
 //@@ subst `SessionControl::AllocateIncomingLink` => `SessionControl3::AllocateIncomingLink` rule=R11
-//@@ subst `let reason = || match session_stop_reason.get() { __E1 };` => `let reason = || -> (o: SessionStopReason) ensures o == sess_reason_or_ended(*session_stop_reason) { match session_stop_reason.get() { __E1 } };` rule=optional-R18
-//@@ subst `.map_err(|_v0| AllocLinkError::SessionStopped(reason()))` => `.map_err(|_v0| -> (o: AllocLinkError) ensures o == AllocLinkError::SessionStopped(sess_reason_or_ended(*session_stop_reason)) { AllocLinkError::SessionStopped(reason()) })` rule=optional-R18
-//@@ subst `.map_err(|_v1| AllocLinkError::SessionStopped(reason()))` => `.map_err(|_v1| -> (o: AllocLinkError) ensures o == AllocLinkError::SessionStopped(sess_reason_or_ended(*session_stop_reason)) { AllocLinkError::SessionStopped(reason()) })` rule=optional-R18
+//@@ subst `let reason = || match session_stop_reason.get() { __E1 };` => `let reason = || -> (o: SessionStopReason) ensures o == sess_reason_or_ended(*session_stop_reason) { match session_stop_reason.get() { __E1 } };` rule=R18
+//@@ subst `.map_err(|_v0| AllocLinkError::SessionStopped(reason()))` => `.map_err(|_v0| -> (o: AllocLinkError) ensures o == AllocLinkError::SessionStopped(sess_reason_or_ended(*session_stop_reason)) { AllocLinkError::SessionStopped(reason()) })` rule=R18
+//@@ subst `.map_err(|_v1| AllocLinkError::SessionStopped(reason()))` => `.map_err(|_v1| -> (o: AllocLinkError) ensures o == AllocLinkError::SessionStopped(sess_reason_or_ended(*session_stop_reason)) { AllocLinkError::SessionStopped(reason()) })` rule=R18
 //@@ spec
     ensures
         old(control).closed@ ==> r == Err::<OutputHandle, AllocLinkError>(AllocLinkError::SessionStopped(sess_reason_or_ended(*session_stop_reason))),     // [C14.attach.stopped-session-says-why] (listener) accepting a link on a session that has stopped fails with SessionStopped carrying the published reason
